@@ -674,6 +674,40 @@ def run(ck: Check):
         check_axioms(ck, prng, "near_equal", X, Y, nb, d, c[5], c[6])
         check_formulas(ck, "near_equal", X, Y, nb, d, c[5], c[6])
         cases.append(c)
+    # call sequences on ONE detector object (deterministic): fit, compare, fit AGAIN on another reference of the same size
+    # (and, separately, after reset()), compare: the second distance is the one a new detector fitted on the second
+    # reference gives; a second compare against another test sample likewise (nothing derived from an earlier reference
+    # or test sample may survive)
+    R1 = [0.1 * i for i in range(30)]
+    R2 = [3.0 + 0.05 * ((7 * i) % 30) for i in range(30)]
+    T1 = [0.4 + 0.11 * i for i in range(25)]
+    T2 = [2.0 + 0.07 * ((11 * i) % 25) for i in range(25)]
+    for name in DISTS:
+        cls = _classes()[name]
+        mk = (lambda: cls()) if name in TRANSPORT else (lambda: cls(num_bins=6))
+        for how in ("refit", "reset-then-fit", "second-compare"):
+            try:
+                det = mk()
+                det.fit(X=np.array(R1))
+                det.compare(X=np.array(T1))
+                if how == "reset-then-fit":
+                    det.reset()
+                if how != "second-compare":
+                    det.fit(X=np.array(R2))
+                    got = float(det.compare(X=np.array(T1))[0].distance)
+                    exp = impl(name, R2, T1, 6)
+                else:
+                    got = float(det.compare(X=np.array(T2))[0].distance)
+                    exp = impl(name, R1, T2, 6)
+            except Exception as e:  # noqa: BLE001
+                ck.violation(dict(clause="raises", distance=name, family="call-sequence", how=how), dict(distance=name, how=how, error=repr(e)))
+                continue
+            ck.case(dict(family="call-sequence", distance=name, how=how), nontrivial=True, key=repr(("callseq", name, how)))
+            ck.count("call_sequence_cases")
+            if not (got == exp or (math.isnan(got) and math.isnan(exp))):
+                ck.violation(dict(clause="function-of-samples", distance=name, family="call-sequence", how=how),
+                             dict(what="the distance reported after an earlier fit / compare on the same detector object differs from the one a new detector gives for the same reference and test sample", distance=name, how=how, got=got, expected=exp,
+                                  first_reference="0.1 i, i < 30", second_reference=R2[:5], test=T1[:5] if how != "second-compare" else T2[:5]))
     res = coq_eval("C10", HDR, [model_expr(c[1], c[2], c[3], c[5], c[6]) for c in cases], shard=40 if thorough else 20)
     for c, r in zip(cases, res):
         compare_model(ck, c, r)
